@@ -42,6 +42,18 @@ var byName = func() map[string]*entry {
 	return m
 }()
 
+// DefaultRoot: hash_tree_root of the default value of a registered type under spec, by the
+// specification's schema (the harness's own merkleisation).
+func DefaultRoot(spec *common.Spec, name string) ([32]byte, bool) {
+	e := byName[name]
+	if e == nil {
+		return [32]byte{}, false
+	}
+	t := e.Schema(S{spec})
+	r, err := Parse(t, Default(t))
+	return r, err == nil
+}
+
 // TypeNames: every registered type (for the coverage report).
 func TypeNames() []string {
 	out := make([]string, len(registry))
@@ -183,16 +195,32 @@ func (c *Config) BuildSpec() *common.Spec {
 // ---- the library object behind one interface ----
 
 type (
-	specDeser  interface{ Deserialize(spec *common.Spec, dr *codec.DecodingReader) error }
-	plainDeser interface{ Deserialize(dr *codec.DecodingReader) error }
-	specSer    interface{ Serialize(spec *common.Spec, w *codec.EncodingWriter) error }
-	plainSer   interface{ Serialize(w *codec.EncodingWriter) error }
-	specBL     interface{ ByteLength(spec *common.Spec) uint64 }
-	plainBL    interface{ ByteLength() uint64 }
-	specFL     interface{ FixedLength(spec *common.Spec) uint64 }
-	plainFL    interface{ FixedLength() uint64 }
-	specHTR    interface{ HashTreeRoot(spec *common.Spec, hFn tree.HashFn) common.Root }
-	plainHTR   interface{ HashTreeRoot(hFn tree.HashFn) common.Root }
+	specDeser interface {
+		Deserialize(spec *common.Spec, dr *codec.DecodingReader) error
+	}
+	plainDeser interface {
+		Deserialize(dr *codec.DecodingReader) error
+	}
+	specSer interface {
+		Serialize(spec *common.Spec, w *codec.EncodingWriter) error
+	}
+	plainSer interface {
+		Serialize(w *codec.EncodingWriter) error
+	}
+	specBL interface {
+		ByteLength(spec *common.Spec) uint64
+	}
+	plainBL interface{ ByteLength() uint64 }
+	specFL  interface {
+		FixedLength(spec *common.Spec) uint64
+	}
+	plainFL interface{ FixedLength() uint64 }
+	specHTR interface {
+		HashTreeRoot(spec *common.Spec, hFn tree.HashFn) common.Root
+	}
+	plainHTR interface {
+		HashTreeRoot(hFn tree.HashFn) common.Root
+	}
 )
 
 // lib: the library's object; each of the five hand-written methods exists in a configuration-bound
